@@ -73,7 +73,9 @@ inline void svprintscripts(std::vector<std::string>& l, int& lmax, std::vector<C
             l.push_back(s);
         }
 
-        if (it == script->end()) begun = true;
+        // the scripts that follow are listed from their start, also when this one could not be decoded to its end
+        // (a truncated push): carrying its iterator over to another script reads outside that script
+        begun = true;
     }
 }
 
